@@ -457,7 +457,7 @@ pub fn run(thorough: bool, seed: u64) -> Acc {
                                         ),
                                         witness: json!({"history": hist.iter().map(|h| h.msg.sql.clone()).collect::<Vec<_>>(), "sql": pm.msg.sql, "proto": PROTO[proto],
                                             "cfg": cfg_json(cfg), "expected": exp.name(), "got": role_name(got_h), "got_on_fresh_session": role_name(got)}),
-                                        history: Some(prev_coarse.to_string()),
+                                        history: Some("role_differs_from_fresh_session".to_string()),
                                     });
                                 } else if exp.ok(got_h) && !matches!(exp, Exp::DontCare(_)) {
                                     acc.count("history_redecided_ok");
@@ -486,7 +486,7 @@ pub fn run(thorough: bool, seed: u64) -> Acc {
                     if f.pr_eff { "on" } else { "off" },
                     if with_dr { dr_name(f.dr) } else { "*" },
                     sess,
-                    match &f.history { Some(h) => format!(",history=after_{}", h), None => String::new() },
+                    match &f.history { Some(h) => format!(",history={}", h), None => String::new() },
                     f.expected,
                     f.got,
                     if with_proto { format!("|proto={}", PROTO[f.proto]) } else { String::new() }
